@@ -46,6 +46,11 @@ def pass_table() -> dict:
 
 def mk_optimizer(names):
     tbl = pass_table()
+    if list(names) == list(PASS_NAMES):
+        # the library's own module-level optimizer, the one Parser.from_grammar uses for every grammar of the process: state it
+        # keeps between grammars (the models assume none) then shows as a difference
+        from pest.grammar.optimizer import DEFAULT_OPTIMIZER as _D
+        return _D
     return Optimizer([tbl[n] for n in names])
 
 
@@ -109,6 +114,61 @@ def outcome(r):
 
 
 # ---------------------------------------------------------------- building the four modes
+
+
+CI_FOLD_GRAMMARS = ['r = { ^"ss" ~ w }\nw = { "a" }', 'r = { (^"fi")+ ~ w }\nw = { "a" }', 'r = { "x" ~ ^"strasse" ~ w? }\nw = { "a" }',
+                    'r = { ^"k" ~ ^"i" ~ w }\nw = { "a" }']
+CI_FOLD_TOKENS = ["\u00df", "ss", "\ufb01", "fi", "a", "x", "\u212a", "k", "\u0130", "i", "stra\u00dfe", "strasse", "\u1e9e", "\u017f"]
+
+
+def ci_fold_oracle(prop: str, shard: int, out) -> None:
+    """^ literals against spellings that match only through Unicode case folding, some with another length ("ß" for "ss"):
+    outside the models (ASCII folding only), so only the properties' own oracles are applied, on the implementation, in all
+    four modes: trees well-formed (C06), failure reports in range (C13), nothing but PestParsingError (C07), generated =
+    interpreted (C01)"""
+    import itertools as _it
+    gtext = CI_FOLD_GRAMMARS[shard % len(CI_FOLD_GRAMMARS)]
+    try:
+        md = Modes(gtext, list(PASS_NAMES))
+    except Exception as e:  # noqa: BLE001
+        out["load_errors"].append(("ci-fold", type(e).__name__, str(e)[:200], gtext))
+        return
+    base = dict(group="ci-fold", grammar=gtext, passes=list(PASS_NAMES))
+    names_ok = set(md.p0.rules) | {"SKIP"}
+    nonsilent = {n for n, r in md.p0.rules.items() if not r.modifier & SILENT and not isinstance(r, BuiltInRule)} | {"EOI"}
+    for n in (1, 2, 3):
+        for toks in _it.product(CI_FOLD_TOKENS, repeat=n):
+            text = "".join(toks)
+            for k in (0, 1) if n == 3 else (0,):
+                if k > len(text):
+                    continue
+                out["stats"]["ci_fold_oracle_cases"] += 1
+                res = {m: run_struct(md.parse[m], "r", text, k) for m in MODES}
+                case = {**base, "rule": "r", "input": [ord(c) for c in text], "start_pos": k, "note": "oracle only, no model"}
+                for m in MODES:
+                    if res[m][0] == "exc" and prop in ("C07", "C01", "C13"):
+                        out["direct"].append({**case, "what": f"{res[m][1]} escaped parse()", "mode": m})
+                if prop == "C01":
+                    for a, b in (("interp", "gen"), ("opt", "optgen")):
+                        if "oof" not in (res[a][0], res[b][0]) and res[a][:2] != res[b][:2]:
+                            out["direct"].append({**case, "what": "generated parser differs from the interpreter", "mode": b,
+                                                  "expected": enc_struct(res[a])[:400], "observed": enc_struct(res[b])[:400]})
+                elif prop == "C06":
+                    for m in MODES:
+                        if res[m][0] == "ok":
+                            try:
+                                pairs = md.parse[m]("r", text, start_pos=k)
+                            except Exception:  # noqa: BLE001, S112
+                                continue
+                            e = check_tree(pairs, text, k, nonsilent, set(), False)
+                            if e:
+                                out["direct"].append({**case, "what": e, "mode": m})
+                elif prop == "C13":
+                    for m in MODES:
+                        if res[m][0] != "ok":
+                            e = check_failure(md.parse[m], "r", text, k, names_ok)
+                            if e:
+                                out["direct"].append({**case, "what": e, "mode": m})
 
 
 def tree_size(rules: dict, cap: int = 20001) -> int:
@@ -775,6 +835,25 @@ def eval_grammar(prop: str, rng: random.Random, gname: str, gtext: str, rules_as
                     okk = r1[0] == r2[0]
                 if not okk:
                     bad("parse at start_pos differs from parsing the suffix", mode=m, expected="shifted " + enc_struct(r2)[:300], observed=enc_struct(r1)[:300])
+                # a character that text processing likes to treat specially (byte order mark, NUL, line / paragraph separators),
+                # put right at start_pos: the suffix parse then *begins* with it, the offset parse has it in the middle
+                if m == "interp" or len(text) <= 6:
+                    for ch_ in ("\ufeff", "\x00", "\u2028", "\r"):
+                        tb = text[:k] + ch_ + text[k:]
+                        rb1 = run_struct(md.parse[m], start, tb, k)
+                        rb2 = run_struct(md.parse[m], start, tb[k:], 0)
+                        if "oof" in (rb1[0], rb2[0]):
+                            continue
+                        if rb1[0] == "ok" and rb2[0] == "ok":
+                            okb = rb1[1] == shift_tree(rb2[1], k)
+                        elif rb1[0] == "fail" and rb2[0] == "fail":
+                            okb = (rb1[1] == -1 and rb2[1] == -1) or (rb2[1] != -1 and rb1[1] == rb2[1] + k)
+                        else:
+                            okb = rb1[0] == rb2[0]
+                        if not okb:
+                            out["direct"].append({**case, "input": [ord(c) for c in tb], "what": "parse at start_pos differs from parsing the suffix",
+                                                  "mode": m, "expected": "shifted " + enc_struct(rb2)[:300], "observed": enc_struct(rb1)[:300]})
+                            break
                 # characters before start_pos are never consulted
                 if k > 0:
                     alt = "".join("z" if ch != "z" else "y" for ch in text[:k]) + text[k:]
@@ -790,6 +869,35 @@ def eval_grammar(prop: str, rng: random.Random, gname: str, gtext: str, rules_as
         elif prop == "C08" and rules_ast is not None:
             pass  # handled per grammar below (needs the rewritten grammar)
 
+    if prop in ("C06", "C13") and '^"' in gtext:
+        # spellings that match a ^ literal only through Unicode case folding, some of them with a different length: outside
+        # the models (they fold ASCII letters only), so only the property's own oracle is applied, on the implementation
+        start_silent_ = {n: bool(r.modifier & SILENT) for n, r in md.p0.rules.items()}
+        seen_x = set()
+        for start, text, k in cases[:60]:
+            for a_, b_ in (("ss", "\u00df"), ("fi", "\ufb01"), ("k", "\u212a"), ("s", "\u017f"), ("SS", "\u1e9e"), ("i", "\u0130")):
+                if a_ not in text[k:]:
+                    continue
+                t2 = text[:k] + text[k:].replace(a_, b_)
+                if (start, t2) in seen_x:
+                    continue
+                seen_x.add((start, t2))
+                out["stats"]["ci_fold_oracle_cases"] += 1
+                for m in MODES:
+                    if prop == "C06":
+                        try:
+                            pairs = md.parse[m](start, t2, start_pos=k)
+                        except Exception:  # noqa: BLE001, S112
+                            continue
+                        e = check_tree(pairs, t2, k, nonsilent, tags, start_silent_.get(start, False))
+                        if e:
+                            out["direct"].append({**base, "rule": start, "input": [ord(c) for c in t2], "start_pos": k, "what": e, "mode": m,
+                                                  "note": "non-ASCII spelling of a ^ literal: oracle only, no model"})
+                    else:
+                        e = check_failure(md.parse[m], start, t2, k, names_ok)
+                        if e:
+                            out["direct"].append({**base, "rule": start, "input": [ord(c) for c in t2], "start_pos": k, "what": e, "mode": m,
+                                                  "note": "non-ASCII spelling of a ^ literal: oracle only, no model"})
     if prop == "C08":
         # metamorphic: rewritten grammar vs original, same inputs, all modes
         if rules_ast is None:
@@ -806,8 +914,12 @@ def eval_grammar(prop: str, rng: random.Random, gname: str, gtext: str, rules_as
                 out["stats"]["printer_roundtrip_skipped"] += 1
                 out["load_errors"].append((gname, "printer", str(e)[:100], ""))
                 rules_ast = None
-        for _ in range(3 if rules_ast is not None else 0):
-            new_rules, desc = rewrite_ast(rng, rules_ast, rng.choice([1, 2, 4]))
+        # tag templates are small: many single rewrites, so that every site of the nested tags gets its turn
+        n_rw = 0 if rules_ast is None else (24 if gname == "tag-template" else 3)
+        if gname == "tag-template":
+            cases = [c for c in cases if len(c[1]) <= 3]
+        for _ in range(n_rw):
+            new_rules, desc = rewrite_ast(rng, rules_ast, 1 if gname == "tag-template" else rng.choice([1, 2, 4]))
             new_text = (G.show_grammar_min if gname.startswith("bundled:") else G.show_grammar)(new_rules)
             try:
                 md2 = Modes(new_text, passes)
@@ -936,6 +1048,12 @@ def _worker(job):
     out = {"lines": [], "expect": [], "direct": [], "load_errors": [], "stats": collections.Counter(), "timeouts": []}
     groups = G.FEATURE_GROUPS if plan["groups"] is None else [g for g in G.FEATURE_GROUPS if g[0] in plan["groups"]]
     n_inputs = 5 if tier == "quick" else 8
+    # the module-level DEFAULT_OPTIMIZER serves every grammar of a process: start half of the workers with a grammar that has
+    # no trivia rules and the other half with one that has, so that state kept between grammars (the models assume none) shows
+    warm = ('a = { (!"b" ~ ANY)* ~ "b" }' if shard % 2 == 0 else 'WHITESPACE = _{ " " }\na = { (!"b" ~ ANY)* ~ "b" }')
+    warm_up(warm)
+    global _WARM  # noqa: PLW0603
+    _WARM = warm
     if shard == 0:
         # the corpus of minimised past failures (defects repaired in /repo, seeded changes) runs first
         cfile = Path(__file__).resolve().parent.parent / "corpus" / "core.jsonl"
@@ -1018,7 +1136,57 @@ def _worker(job):
                 out["timeouts"].append({"group": "bundled:" + gfile, "grammar": gtext[:200], "passes": passes})
             finally:
                 signal.alarm(0)
-    if prop == "C05" or (tier == "thorough" and prop in ("C01", "C07")):
+    if prop == "C05":
+        # implicit-trivia attempts that change the stack and fail (sharded) x every input over {x # = a b} that starts with x
+        nsht = do_bundled[1] if do_bundled else NCPU
+        inputs_t = [t for t in small_inputs("x#=ab", 6 if tier == "thorough" else 5) if t.startswith("x")]
+        for j_, rules in enumerate(G.trivia_stack_templates()):
+            if j_ % nsht != shard % nsht:
+                continue
+            gtext = G.show_grammar(rules)
+            signal.alarm(120)
+            try:
+                eval_grammar(prop, rng, "trivia-stack", gtext, rules, choose_passes(rng, rng.randrange(2)), [("r", t, 0) for t in inputs_t], out)
+                out["stats"]["trivia_stack_grammars"] += 1
+            except Timeout:
+                out["timeouts"].append({"group": "trivia-stack", "grammar": gtext, "passes": list(PASS_NAMES)})
+            finally:
+                signal.alarm(0)
+    if prop in ("C06", "C13", "C07", "C01") and shard < 4:
+        ci_fold_oracle(prop, shard, out)
+    if prop in ("C08", "C01", "C02", "C06"):
+        # nested node tags around attempts that let a rule finish before they fail x every input over {a b z blank} to length 4
+        inputs_tag = small_inputs("abz ", 5 if tier == "thorough" else 4)
+        for _ in range(10 if tier == "thorough" else (6 if prop == "C08" else 3)):
+            rules = G.gen_tag_template(rng)
+            if not G.well_formed(rules):
+                continue
+            gtext = G.show_grammar(rules)
+            signal.alarm(120)
+            try:
+                eval_grammar(prop, rng, "tag-template", gtext, rules, choose_passes(rng, rng.randrange(2)), [("s", t, 0) for t in inputs_tag], out)
+                out["stats"]["tag_template_grammars"] += 1
+            except Timeout:
+                out["timeouts"].append({"group": "tag-template", "grammar": gtext, "passes": list(PASS_NAMES)})
+            finally:
+                signal.alarm(0)
+    if prop in ("C05", "C01"):
+        # POP_ALL inside an abandoned attempt (sharded) x every input over {a, b} up to length 7
+        nshp = do_bundled[1] if do_bundled else NCPU
+        inputs_p = small_inputs("ab", 8 if tier == "thorough" else 7)
+        for j_, rules in enumerate(G.popall_templates()):
+            if j_ % nshp != shard % nshp:
+                continue
+            gtext = G.show_grammar(rules)
+            signal.alarm(120)
+            try:
+                eval_grammar(prop, rng, "popall-template", gtext, rules, choose_passes(rng, rng.randrange(2)), [("r", t, 0) for t in inputs_p], out)
+                out["stats"]["popall_template_grammars"] += 1
+            except Timeout:
+                out["timeouts"].append({"group": "popall-template", "grammar": gtext, "passes": list(PASS_NAMES)})
+            finally:
+                signal.alarm(0)
+    if prop in ("C05", "C01") or (tier == "thorough" and prop == "C07"):
         # stack/backtracking templates x every input over {a, b, !} up to a small length
         inputs = small_inputs("ab!", 6 if tier == "thorough" else 5)
         for _ in range(12 if tier == "thorough" else 3):
@@ -1086,7 +1254,7 @@ def _worker(job):
                 out["timeouts"].append({"group": "rule-graph", "grammar": gtext, "passes": list(PASS_NAMES)})
             finally:
                 signal.alarm(0)
-    if prop in ("C02", "C16") or (tier == "thorough" and prop in ("C01", "C04")):
+    if prop in ("C02", "C16", "C04") or (tier == "thorough" and prop == "C01"):
         # the shapes the skip and squash passes rewrite x every short input over a small alphabet
         for kind in ("skip", "squash"):
             inputs3 = small_inputs("abc", 6 if tier == "thorough" else 5) if kind == "skip" else \
@@ -1122,8 +1290,8 @@ def _worker(job):
                 try:
                     starts_ = [n for n in ("r", "r2", "r3", "r4", "SKIP") if n in rules]
                     ins_ = inputs3
-                    if kind == "skip" and len(starts_) > 1:
-                        ins_ = inputs3[: len(inputs3) // 2] + small_inputs("abc ", 4)
+                    if kind == "skip" and (len(starts_) > 1 or "WHITESPACE" in rules):
+                        ins_ = inputs3[: len(inputs3) // 2] + small_inputs("abc ", 4) + small_inputs("ab ", 5)
                     eval_grammar(prop, rng, "opt-template:" + kind, gtext, rules, choose_passes(rng, rng.randrange(3)),
                                  [(st_, t, (0 if prop != "C16" else rng.randint(0, len(t)))) for st_ in starts_ for t in ins_], out)
                     out["stats"]["opt_template_grammars"] += 1
@@ -1251,6 +1419,8 @@ def _worker(job):
             for m, mine in spec_compare(want, got):
                 direct.append({**meta, "what": "result differs from pest's semantics (executable specification L0)", "mode": m,
                                "expected": got[:400], "observed": mine[:400]})
+    for d_ in direct:
+        d_.setdefault("history", [_WARM] if _WARM else [])
     return {"stats": out["stats"], "corr": corr[:40], "n_corr": len(corr), "direct": direct[:40], "n_direct": len(direct),
             "load_errors": out["load_errors"][:5], "timeouts": out["timeouts"][:5], "nlines": len(out["lines"])}
 
@@ -1359,6 +1529,73 @@ def replay_known_tag_finding(prop: str) -> str | None:
 # ---------------------------------------------------------------- replay / shrinking
 
 
+_WARM: str | None = None
+
+
+def warm_up(gtext: str) -> None:
+    try:
+        P.make_parser(gtext, mk_optimizer(list(PASS_NAMES))).parse("a", "a ab")
+    except Exception:  # noqa: BLE001, S110
+        pass
+
+
+def recheck_fresh(prop: str, f: dict) -> bool:
+    """a failure that does not reproduce as a single call may depend on what the process did before: replay it in a fresh
+    interpreter process after the recorded history (the grammar the worker loaded first with the library's shared optimizer)"""
+    import json as _json
+    import subprocess
+    import sys as _sys
+    if not f.get("history"):
+        return False
+    code = ("import sys, json; sys.path.insert(0, %r); import eng_core as E; f = json.load(sys.stdin); "
+            "[E.warm_up(g) for g in f['history']]; print('REPRO' if E.recheck(%r, f) else 'NO')") % (str(Path(__file__).resolve().parent), prop)
+    try:
+        r = subprocess.run([_sys.executable, "-c", code], input=_json.dumps(f), capture_output=True, text=True, timeout=300)
+    except subprocess.TimeoutExpired:
+        return False
+    return "REPRO" in r.stdout
+
+
+def targeted_rewrite_search(c: dict, tries: int = 150) -> dict | None:
+    """single meaning-preserving rewrites of one grammar, tried on one input in all four modes"""
+    signal.signal(signal.SIGALRM, _alarm)
+    text = "".join(chr(x) for x in c.get("input", []))
+    start, k = c["rule"], c.get("start_pos", 0)
+    signal.alarm(120)
+    try:
+        md = Modes(c["grammar"], c["passes"])
+        ast0 = rules_to_ast(md.p0.rules)
+        base_res = {m: run_struct(md.parse[m], start, text, k) for m in MODES}
+        seen = set()
+        for i in range(tries):
+            new_rules, desc = rewrite_ast(random.Random(i), ast0, 1)
+            new_text = G.show_grammar(new_rules)
+            if new_text in seen:
+                continue
+            seen.add(new_text)
+            try:
+                md2 = Modes(new_text, c["passes"])
+            except Timeout:
+                raise
+            except Exception:  # noqa: BLE001, S112
+                continue
+            for m in MODES:
+                r2 = run_struct(md2.parse[m], start, text, k)
+                if "oof" in (base_res[m][0], r2[0]):
+                    continue
+                if outcome(base_res[m]) != outcome(r2):
+                    return {"group": c.get("group"), "grammar": c["grammar"], "passes": c["passes"], "rule": start, "input": c.get("input", []),
+                            "start_pos": k, "what": "rewritten grammar parses differently", "rewritten": new_text, "rewrites": desc, "mode": m,
+                            "expected": enc_struct(base_res[m])[:6000], "observed": enc_struct(r2)[:6000]}
+    except Timeout:
+        return None
+    except Exception:  # noqa: BLE001
+        return None
+    finally:
+        signal.alarm(0)
+    return None
+
+
 def recheck(prop: str, f: dict) -> bool:
     """does the recorded direct failure still fail on the current tree?"""
     signal.signal(signal.SIGALRM, _alarm)
@@ -1415,7 +1652,7 @@ def shrink_failure(prop: str, f: dict) -> dict:
 def replay(out: Outcome, payload: dict) -> None:
     prop = out.prop
     out.coverage = {"explanation": "replay of one recorded case", "evaluations": 1, "distinct_nontrivial": 2, "samples": [payload.get("what", "")]}
-    if payload.get("kind") == "direct" and recheck(prop, payload):
+    if payload.get("kind") == "direct" and (recheck(prop, payload) or recheck_fresh(prop, payload)):
         out.violation(payload)
 
 
@@ -1489,6 +1726,14 @@ def run_prop(out: Outcome, level_when_proved: str = "proof") -> None:
         seen.add(key)
         f = {**f, "kind": "direct"}
         if "rule" in f and not recheck(prop, f):
+            if recheck_fresh(prop, f):
+                # depends on what the process did before: reported with its history, not shrunk
+                out.violation({**f, "history_dependent": True, "seed": seed(),
+                               "what": f.get("what", "") + " (only after the recorded history: state is kept between grammars)",
+                               "command": f"./check {prop} --replay <this file>"})
+                reported += 1
+                if reported >= 3:
+                    break
             continue                      # not reproducible from the replay data: not believed
         small = shrink_failure(prop, f)
         out.violation({**small, "seed": seed(), "command": f"./check {prop} --replay <this file>"})
@@ -1518,6 +1763,15 @@ def run_prop(out: Outcome, level_when_proved: str = "proof") -> None:
             if confirmed:
                 out.violation({"kind": "timeout", **t, "what": "parse() did not terminate within 300 s"})
                 reported += 1
+    if reported == 0 and prop == "C08" and corr:
+        # the model and the implementation disagree on some (grammar, input): look for a rewrite of exactly that grammar that
+        # changes the result on exactly that input - the concrete failing input the metamorphic sampling did not happen to draw
+        for c in [c for c in corr if c.get("rule") and c.get("grammar")][:4]:
+            found = targeted_rewrite_search(c)
+            if found:
+                out.violation({**found, "kind": "direct", "seed": seed(), "command": f"./check {prop} --replay <this file>"})
+                reported += 1
+                break
     if reported == 0:
         if corr:
             c = corr[0]
